@@ -1168,11 +1168,11 @@ pub fn check_c17(tier: Tier) -> i32 {
 // ---------------------------------------------------------------------------------------------
 // C18
 
-fn c18_cell(run: &Run, cfg: &Cfg, alphabet: &[Op], depth: usize, ns: &[usize]) {
+fn c18_cell(run: &Run, cfg: &Cfg, alphabet: &[Op], depth: usize, ns: &[usize], start: usize) {
   type U = unsync::Arena;
   let n = alphabet.len();
   let starts = [Start::fresh(), fragmented_starts()[1].clone(), fragmented_starts()[2].clone(), fragmented_starts()[4].clone()];
-  for st in &starts {
+  for st in &starts[start..start + 1] {
     let mut idx = vec![0usize; depth];
     loop {
       let word: Vec<Op> = idx.iter().map(|i| alphabet[*i]).collect();
@@ -1363,7 +1363,20 @@ pub fn check_c18(tier: Tier) -> i32 {
       cells.push(c);
     }
   }
-  par_for_each(&cells, |_, c| c18_cell(&run, c, &alphabet, if thorough { 3 } else { 2 }, &ns));
+  let ns_light: Vec<usize> = ns.clone();
+  // work items (cell, start state), spread over single-threaded child processes (every case re-maps memory: see shard.rs)
+  let work: Vec<(usize, usize)> = (0..cells.len()).flat_map(|ci| (0..4).map(move |st| (ci, st))).collect();
+  if crate::shard::child().is_some() {
+    let work: Vec<(usize, usize)> = work.into_iter().enumerate().filter(|(i, _)| crate::shard::mine(*i)).map(|(_, w)| w).collect();
+    par_for_each(&work, |_, &(ci, st)| {
+      let c = &cells[ci];
+      c18_cell(&run, c, &alphabet, if thorough { 3 } else { 2 }, if c.file_offset > 0 || c.reserved > 0 { &ns_light } else { &ns }, st)
+    });
+    return crate::shard::finish_child(&run);
+  }
+  if let Err(code) = crate::shard::run_children(&run, "C18", tier, crate::report::nthreads()) {
+    return code;
+  }
   // read-only arenas refuse
   for fl in Fl::ALL {
     let cfg = Cfg::new(fl, Backend::File, true, 256);
